@@ -12,8 +12,8 @@ once references have been resolved: `Signal`, `Slice`, `Concat`.
 * `listSlice`, `resolveSlice`, `resolveConcat`, `resolveSliceable` mirror
   `hdl21/elab/passes/slices.py:_list_slice/_resolve_slice/_resolve_concat/_resolve_sliceable`.
   The Python recursion creates fresh `Slice` objects on the same parent, so it is not
-  structural; the model takes a fuel argument (the driver supplies a bound; that it suffices is
-  checked against the implementation on every run, not proved).
+  structural; the model takes a fuel argument; `needR` (below) is a bound that
+  `Props.C03.resolve_total` proves sufficient.
 -/
 import Hdl21Model.Slice
 namespace Hdl21
@@ -194,5 +194,33 @@ def renameList (ρ : String → String) : List SConn → List SConn
 end
 
 def renameBit (ρ : String → String) (b : Bit) : Bit := (ρ b.1, b.2)
+
+/-! ### fuel the resolver never runs out of (`resolve_total`, Props/C03) -/
+
+/-- the width, 0 if there is none -/
+def SConn.wd (c : SConn) : Nat := match c.width with | .ok w => w | .error _ => 0
+
+mutual
+/-- fuel that `resolveSliceable` never runs out of -/
+def needR : SConn → Nat
+  | .sig _ _ => 1
+  | .slice p idx => needR p + 2 * (SConn.slice p idx).wd
+  | .concat ps => needP ps + 1
+def needP : List SConn → Nat
+  | [] => 1
+  | p :: ps => needR p + needP ps + 1
+end
+
+mutual
+/-- no `Concat()` without parts anywhere (hdl21 refuses it: "concatenation with no parts") -/
+def SConn.noEmpty : SConn → Bool
+  | .sig _ _ => true
+  | .slice p _ => p.noEmpty
+  | .concat ps => !ps.isEmpty && noEmptyList ps
+def noEmptyList : List SConn → Bool
+  | [] => true
+  | p :: ps => p.noEmpty && noEmptyList ps
+end
+
 
 end Hdl21
